@@ -145,7 +145,8 @@ func (c RegCfg) Args() []string {
 
 // input: "<runs> <lseed> # <paths> # <fileOf> # <cfg> | <journal>" (paths and fileOf as in C06.order: the path under
 // which knut knows each file and the file of each directive; the model gets the directives in (path, position) order,
-// the order in which the current code's Build() leaves them whatever the arrival order, Properties/C06.v C06_arrival)
+// the order in which the current code's Build() leaves them whatever the arrival order, Properties/C06.v C06_arrival);
+// paths "-" = the journal is written to one file
 // observed: "<runs=same | diff ...> | <OK stdout | ERR | PANIC ...>" (the first run)
 func obsC06Reg(in string) string {
 	head, jS := splitInput(in)
@@ -160,13 +161,19 @@ func obsC06Reg(in string) string {
 	j := DecodeJournal(jS)
 	var out string
 	withTempDir(func(dir string) {
-		r := newRng(lseed, "C06layout", 0)
-		l := genLayout(r, len(j), 4)
-		if p, o := layoutTags(l); p != hp[1] || o != hp[2] {
-			out = "layout mismatch | -"
-			return
+		var root string
+		if hp[1] == "-" {
+			// hand-written cases (corpus): one file
+			root = writeFile(dir, "journal.knut", j.Text())
+		} else {
+			r := newRng(lseed, "C06layout", 0)
+			l := genLayout(r, len(j), 4)
+			if p, o := layoutTags(l); p != hp[1] || o != hp[2] {
+				out = "layout mismatch | -"
+				return
+			}
+			root = writeLayout(dir, j, l, r)
 		}
-		root := writeLayout(dir, j, l, r)
 		args := append(cfg.Args(), root)
 		var first runResult
 		verdict := "runs=same"
